@@ -128,8 +128,9 @@ func getSchemas(directories []string, types []string) (map[string][]byte, error)
 					fieldType = fieldType[:i]
 				}
 
-				// if it's a primitive, no action required
-				if Primitives[fieldType] {
+				// if it's a primitive, no action required. wstring is a built-in type of ROS 2
+				// interface definitions that the (ROS 1) primitives table does not list.
+				if Primitives[fieldType] || fieldType == "wstring" {
 					continue
 				}
 
